@@ -5,6 +5,7 @@ package transfer
 import (
 	"context"
 	"hash/crc32"
+	"time"
 
 	"github.com/sheerbytes/sheerbytes/pkg/manifest"
 )
@@ -110,3 +111,39 @@ func (v *VerifFileWait) Wait(ctx context.Context, id uint64, ready func() bool) 
 	return v.r.wait(ctx, id, ready)
 }
 func (v *VerifFileWait) Signal(id uint64) { v.r.signal(id) }
+
+// scripted read pool (harness mode "stalebuf"): the sender's chunk reads are queued but run only when the harness says so
+type VerifReadJob struct {
+	j   readJob
+	res readResult
+}
+
+type VerifReadPool struct{ p *readPool }
+
+func VerifManualReadPool() *VerifReadPool {
+	getReadPool() // make sure the Once has fired
+	globalReadPool = &readPool{jobs: make(chan readJob, 64)}
+	return &VerifReadPool{p: globalReadPool}
+}
+
+func VerifRestoreReadPool() { globalReadPool = newReadPool(defaultReadWorkers()) }
+
+func (v *VerifReadPool) Take(d time.Duration) *VerifReadJob {
+	select {
+	case j := <-v.p.jobs:
+		return &VerifReadJob{j: j}
+	case <-time.After(d):
+		return nil
+	}
+}
+func (j *VerifReadJob) Read() error {
+	n, err := j.j.file.ReadAt(j.j.buf, j.j.offset)
+	j.res = readResult{n: n, err: err}
+	return err
+}
+func (j *VerifReadJob) Deliver()      { j.j.result <- j.res }
+func (j *VerifReadJob) Offset() int64 { return j.j.offset }
+func (j *VerifReadJob) Len() int      { return len(j.j.buf) }
+func (j *VerifReadJob) SameBuffer(o *VerifReadJob) bool {
+	return len(j.j.buf) > 0 && len(o.j.buf) > 0 && &j.j.buf[0] == &o.j.buf[0]
+}
